@@ -259,6 +259,9 @@ bool deadlock() { return S()->deadlock; }
 // ---------------------------------------------------------------- OpenMP surface
 extern "C"
 {
+static bool g_ws_preset = false;
+static int g_single_region = -1;
+static void ws_reset();
 int omp_get_thread_num(void) { State *s = S(); return (s->in_region && s->cur >= 0) ? s->cur : 0; }
 int omp_get_num_threads(void) { State *s = S(); return s->in_region ? (int)s->team.size() : 1; }
 int omp_get_max_threads(void) { return S()->cur_default; }
@@ -280,6 +283,8 @@ void GOMP_parallel(void (*fn)(void *), void *data, unsigned num_threads, unsigne
     s->fn = fn;
     s->data = data;
     s->in_region = true;
+    if (!g_ws_preset) ws_reset();
+    g_ws_preset = false;
     if (s->mode == ts::SERIAL)
     {
         std::vector<int> order;
@@ -317,6 +322,153 @@ void GOMP_parallel(void (*fn)(void *), void *data, unsigned num_threads, unsigne
     s->in_region = false;
     s->cur = -1;
 }
+
+// ---- other OpenMP constructs.  The library uses none of them; they exist so that an edited library that does still links
+// and runs under this runtime.  Outside a team (orphaned construct reached from serial code) their meaning is exact: the
+// encountering thread is a team of one.  Inside a team of several members the model is simplified (stated once as UNCOVERED):
+// loop chunks of dynamic / guided / runtime schedules are dealt cyclically (chunk k to member k mod T, one of the outcomes a
+// dynamic schedule may produce), critical / atomic sections are not interleaved, barriers do not hold members back.
+static void simplified(const char *what)
+{
+    static std::unordered_set<std::string> said;
+    State *s = S();
+    bool was = s->busy;
+    s->busy = true;
+    struct Restore { State *s; bool was; ~Restore() { s->busy = was; } } restore_{s, was};
+    if (!s->in_region || s->team.size() < 2) return;
+    if (said.insert(what).second) { printf("UNCOVERED teamsched: %s inside a team of %zu members runs under a simplified model\n", what, s->team.size()); fflush(stdout); }
+}
+struct WorkShare { unsigned long long start, end, incr, chunk; };
+static std::vector<WorkShare> g_ws;          // work-sharing loops of the current region, in encounter order
+static std::vector<size_t> g_ws_idx, g_ws_k; // per member: loop it is in, chunks it has taken from that loop
+static int ws_me() { State *s = S(); return (s->in_region && s->cur >= 0) ? s->cur : 0; }
+static int ws_T() { State *s = S(); return s->in_region ? (int)s->team.size() : 1; }
+static void ws_reset() { g_ws.clear(); g_ws_idx.clear(); g_ws_k.clear(); }
+struct Busy { bool was; Busy() { State *s = S(); was = s->busy; s->busy = true; } ~Busy() { S()->busy = was; } }; // the runtime's own memory traffic is not a member access
+static bool ws_next(unsigned long long *is, unsigned long long *ie)
+{
+    Busy busy_;
+    int me = ws_me(), T = ws_T();
+    if ((int)g_ws_idx.size() < T) { g_ws_idx.resize(T, 0); g_ws_k.resize(T, 0); }
+    if (g_ws_idx[me] >= g_ws.size()) return false;
+    WorkShare &w = g_ws[g_ws_idx[me]];
+    unsigned long long step = w.chunk * w.incr, c = g_ws_k[me]++ * (unsigned long long)T + (unsigned long long)me, lo = w.start + c * step;
+    if (step == 0 || lo >= w.end || lo < w.start) return false;
+    *is = lo;
+    *ie = (w.end - lo < step) ? w.end : lo + step;
+    return true;
+}
+static bool ws_start(bool up, unsigned long long start, unsigned long long end, unsigned long long incr, unsigned long long chunk, unsigned long long *is, unsigned long long *ie)
+{
+    Busy busy_;
+    if (!up) { printf("UNCOVERED teamsched: downward work-sharing loop is not modelled\n"); fflush(stdout); abort(); }
+    simplified("a dynamically scheduled loop");
+    int me = ws_me(), T = ws_T();
+    if ((int)g_ws_idx.size() < T) { g_ws_idx.resize(T, 0); g_ws_k.resize(T, 0); }
+    if (g_ws_idx[me] >= g_ws.size()) g_ws.push_back({start, end, incr, chunk ? chunk : 1});
+    g_ws_k[me] = 0;
+    return ws_next(is, ie);
+}
+static void ws_end() { Busy busy_; int me = ws_me(); if ((int)g_ws_idx.size() > me) { g_ws_idx[me]++; g_ws_k[me] = 0; } }
+#define TS_LOOP_ULL(name) \
+    bool GOMP_loop_ull_##name##_start(bool up, unsigned long long st, unsigned long long en, unsigned long long inc, unsigned long long ch, unsigned long long *is, unsigned long long *ie) { return ws_start(up, st, en, inc, ch, is, ie); } \
+    bool GOMP_loop_ull_##name##_next(unsigned long long *is, unsigned long long *ie) { return ws_next(is, ie); }
+static long g_ws_base_l = 0;
+TS_LOOP_ULL(dynamic)
+TS_LOOP_ULL(nonmonotonic_dynamic)
+TS_LOOP_ULL(guided)
+TS_LOOP_ULL(nonmonotonic_guided)
+bool GOMP_loop_ull_runtime_start(bool up, unsigned long long st, unsigned long long en, unsigned long long inc, unsigned long long *is, unsigned long long *ie) { return ws_start(up, st, en, inc, 1, is, ie); }
+bool GOMP_loop_ull_runtime_next(unsigned long long *is, unsigned long long *ie) { return ws_next(is, ie); }
+bool GOMP_loop_ull_maybe_nonmonotonic_runtime_start(bool up, unsigned long long st, unsigned long long en, unsigned long long inc, unsigned long long *is, unsigned long long *ie) { return ws_start(up, st, en, inc, 1, is, ie); }
+bool GOMP_loop_ull_maybe_nonmonotonic_runtime_next(unsigned long long *is, unsigned long long *ie) { return ws_next(is, ie); }
+static bool l_start(long st, long en, long inc, long ch, long *is, long *ie)
+{
+    if (inc <= 0) return ws_start(false, 0, 0, 0, 0, 0, 0);
+    if (en <= st) { unsigned long long a, b; ws_start(true, 0, 0, 1, 1, &a, &b); return false; }
+    g_ws_base_l = st;
+    unsigned long long a, b;
+    bool r = ws_start(true, 0, (unsigned long long)(en - st), (unsigned long long)inc, (unsigned long long)(ch > 0 ? ch : 1), &a, &b);
+    if (r) { *is = st + (long)a; *ie = st + (long)b; }
+    return r;
+}
+static bool l_next(long *is, long *ie)
+{
+    unsigned long long a, b;
+    bool r = ws_next(&a, &b);
+    if (r) { *is = g_ws_base_l + (long)a; *ie = g_ws_base_l + (long)b; }
+    return r;
+}
+bool GOMP_loop_dynamic_start(long st, long en, long inc, long ch, long *is, long *ie) { return l_start(st, en, inc, ch, is, ie); }
+bool GOMP_loop_dynamic_next(long *is, long *ie) { return l_next(is, ie); }
+bool GOMP_loop_nonmonotonic_dynamic_start(long st, long en, long inc, long ch, long *is, long *ie) { return l_start(st, en, inc, ch, is, ie); }
+bool GOMP_loop_nonmonotonic_dynamic_next(long *is, long *ie) { return l_next(is, ie); }
+bool GOMP_loop_guided_start(long st, long en, long inc, long ch, long *is, long *ie) { return l_start(st, en, inc, ch, is, ie); }
+bool GOMP_loop_guided_next(long *is, long *ie) { return l_next(is, ie); }
+bool GOMP_loop_nonmonotonic_guided_start(long st, long en, long inc, long ch, long *is, long *ie) { return l_start(st, en, inc, ch, is, ie); }
+bool GOMP_loop_nonmonotonic_guided_next(long *is, long *ie) { return l_next(is, ie); }
+bool GOMP_loop_runtime_start(long st, long en, long inc, long *is, long *ie) { return l_start(st, en, inc, 1, is, ie); }
+bool GOMP_loop_runtime_next(long *is, long *ie) { return l_next(is, ie); }
+bool GOMP_loop_maybe_nonmonotonic_runtime_start(long st, long en, long inc, long *is, long *ie) { return l_start(st, en, inc, 1, is, ie); }
+bool GOMP_loop_maybe_nonmonotonic_runtime_next(long *is, long *ie) { return l_next(is, ie); }
+void GOMP_loop_end(void) { ws_end(); }
+void GOMP_loop_end_nowait(void) { ws_end(); }
+bool GOMP_loop_end_cancel(void) { ws_end(); return false; }
+// combined parallel + loop: the loop is work share 0 of the new region
+static void par_loop(void (*fn)(void *), void *data, unsigned nt, long st, long en, long inc, long ch, unsigned flags)
+{
+    State *s = S();
+    if (s->in_region) { printf("UNCOVERED teamsched: combined parallel loop inside a region is not modelled\n"); fflush(stdout); abort(); }
+    if (inc <= 0) { printf("UNCOVERED teamsched: downward work-sharing loop is not modelled\n"); fflush(stdout); abort(); }
+    ws_reset();
+    g_ws_base_l = st;
+    { Busy busy_; g_ws.push_back({0, en > st ? (unsigned long long)(en - st) : 0, (unsigned long long)inc, (unsigned long long)(ch > 0 ? ch : 1)}); }
+    g_ws_preset = true;
+    GOMP_parallel(fn, data, nt, flags);
+}
+void GOMP_parallel_loop_dynamic(void (*fn)(void *), void *d, unsigned nt, long st, long en, long inc, long ch, unsigned fl) { par_loop(fn, d, nt, st, en, inc, ch, fl); }
+void GOMP_parallel_loop_nonmonotonic_dynamic(void (*fn)(void *), void *d, unsigned nt, long st, long en, long inc, long ch, unsigned fl) { par_loop(fn, d, nt, st, en, inc, ch, fl); }
+void GOMP_parallel_loop_guided(void (*fn)(void *), void *d, unsigned nt, long st, long en, long inc, long ch, unsigned fl) { par_loop(fn, d, nt, st, en, inc, ch, fl); }
+void GOMP_parallel_loop_nonmonotonic_guided(void (*fn)(void *), void *d, unsigned nt, long st, long en, long inc, long ch, unsigned fl) { par_loop(fn, d, nt, st, en, inc, ch, fl); }
+void GOMP_parallel_loop_runtime(void (*fn)(void *), void *d, unsigned nt, long st, long en, long inc, unsigned fl) { par_loop(fn, d, nt, st, en, inc, 1, fl); }
+void GOMP_parallel_loop_maybe_nonmonotonic_runtime(void (*fn)(void *), void *d, unsigned nt, long st, long en, long inc, unsigned fl) { par_loop(fn, d, nt, st, en, inc, 1, fl); }
+void GOMP_barrier(void) { simplified("a barrier"); }
+bool GOMP_barrier_cancel(void) { simplified("a barrier"); return false; }
+void GOMP_critical_start(void) { simplified("a critical section"); }
+void GOMP_critical_end(void) {}
+void GOMP_critical_name_start(void **) { simplified("a critical section"); }
+void GOMP_critical_name_end(void **) {}
+void GOMP_atomic_start(void) { simplified("an atomic section"); }
+void GOMP_atomic_end(void) {}
+bool GOMP_single_start(void)
+{
+    static std::vector<size_t> seen; // per member: single constructs encountered in this region
+    static size_t done = 0;
+    State *s = S();
+    if (!s->in_region || s->team.size() < 2) return true;
+    Busy busy_;
+    simplified("a single construct");
+    if (g_single_region != s->region_index) { g_single_region = s->region_index; seen.assign(s->team.size(), 0); done = 0; }
+    size_t mine = ++seen[s->cur];
+    if (mine > done) { done = mine; return true; }
+    return false;
+}
+void GOMP_task(void (*fn)(void *), void *data, void (*cpyfn)(void *, void *), long arg_size, long arg_align, bool, unsigned, void **, int, void *)
+{
+    // undeferred execution by the encountering member (always permitted)
+    if (cpyfn)
+    {
+        char *buf = (char *)malloc((size_t)arg_size + (size_t)arg_align);
+        char *arg = (char *)(((uintptr_t)buf + (uintptr_t)arg_align - 1) & ~((uintptr_t)arg_align - 1));
+        cpyfn(arg, data);
+        fn(arg);
+        free(buf);
+    }
+    else fn(data);
+}
+void GOMP_taskwait(void) {}
+void GOMP_taskgroup_start(void) {}
+void GOMP_taskgroup_end(void) {}
 
 // ---- compiler instrumentation (-fsanitize=thread) lands here
 void __tsan_init(void) {}
